@@ -1,11 +1,15 @@
 //! jbkverif — correspondence harness: drives the real jubako library (path dependency on /repo,
 //! rebuilt from the working tree) and writes the op/answer streams the Lean model driver replays.
 mod c01;
+mod c02;
+mod c03;
+mod dirgen;
 mod c04;
 mod c08;
 mod cpdec;
 mod c12;
 mod c13;
+mod c15;
 mod container;
 mod out;
 mod rng;
@@ -59,7 +63,10 @@ fn main() {
     match prop.as_str() {
         "c13" => c13::run(&mut ctx),
         "c01" => c01::run(&mut ctx),
+        "c02" => c02::run(&mut ctx),
+        "c03" => c03::run(&mut ctx),
         "c04" => c04::run(&mut ctx),
+        "c15" => c15::run(&mut ctx),
         "c08" => c08::run(&mut ctx),
         "c12" => c12::run(&mut ctx),
         _ => {
